@@ -10,6 +10,7 @@ LEVEL_NOTE = ('nothing is proved for all strings: the pools are finite (about 36
               'range restrictions (negative values), values added by a registered CSS3 module and display: run-in')
 TECHNIQUE = ('bounded run-time contracts on the real code over enumerated (name, value) pools against an independent hand-written CSS 2.1 grammar table; metamorphic '
              'respelling (case, white space, comments, !important), eight ways of creating the property, serialise-reparse; all declaration blocks up to a length bound')
+LEVEL_TEXT = LEVEL_TEXT + ' The grammar clause is additionally proved as regular-language equality between the real compiled patterns of the CSS 2.1 profile and the hand-written table for 32 keyword-list and 38 typed properties (T1-regex, all strings, outside the recorded deviation classes).'
 DESIGN_REF = 'DESIGN.md section 3, C13'
 
 
@@ -17,3 +18,11 @@ def bounded(ctx):
     from bounded import c13
     # registry, properties, unknown_names, conjunction, fontface — run side by side in worker processes
     c13.run_all(ctx)
+
+
+# T1-regex: for every CSS 2.1 property of the hand-written grammar table, the real macro-expanded compiled pattern is compared with
+# the table as a regular language over ALL strings (outside the recorded deviation classes), and is anchored / case-insensitive.
+def lemmas(ctx):
+    from contracts import profiles_lemmas as PL
+    PL.lemmas(ctx)
+    PL.typed_lemmas(ctx)
